@@ -29,7 +29,9 @@
 (* The laws below relate the two.  Dev selects named deviations:            *)
 (*   "CollectExprKinOnly"  symbols are collected from expression and        *)
 (*        kinematic variables only, so a parameter that occurs in neither   *)
-(*        cannot be renamed (behaviour of the pinned tree)                  *)
+(*        (m_0 of a model with stable_final_state_ids) cannot be renamed    *)
+(*        -- the behaviour of ampform before /repo commit 31be39e, found    *)
+(*        with this specification; kept as a deviation for sensitivity      *)
 (*   "SequentialSubs", "DropAssumptions", "ComponentsNotRenamed",           *)
 (*   "KinKeysNotRenamed", "AmplitudesNotRenamed", "MutateReceiver",         *)
 (*   "IndexOffByOne", "SetByNameNext"   (sensitivity of the laws)           *)
@@ -40,7 +42,7 @@
 (* as the code's observed behaviour:                                        *)
 (*  - coupling two parameters with unequal defaults keeps the position of   *)
 (*    the first and the VALUE OF THE LAST one in parameter order, silently  *)
-(*    (dict comprehension) -- ParamImage;                                   *)
+(*    (dict comprehension) -- DictKeys / DictVals;                          *)
 (*  - the empty map returns the receiver itself, not a copy (aliasing: a    *)
 (*    later ParamSet through the result changes the original);              *)
 (*  - names in the map that no collected symbol carries produce a warning   *)
@@ -89,7 +91,7 @@ Closure(M) ==
   /\ Params(M) \cap KinKeys(M) = {}
   /\ \A k \in KinKeys(M) : M.kin[k] \ Params(M) \subseteq M.p4
 ExprConsistent(M) == M.expr = ExprSyms(M) /\ CompSyms(M) \subseteq M.expr
-NamesUnique(M) == \A s, t \in AllSyms(M) : s.name = t.name => s = t
+NamesUnique(M) == LET A == AllSyms(M) IN Cardinality(Names(A)) = Cardinality(A)
 \* names are unambiguous and a four-momentum is neither a parameter nor a kinematic variable
 WellNamed(M) == NamesUnique(M) /\ M.p4 \cap (Params(M) \cup KinKeys(M)) = {}
 ParamsWellFormed(M) ==
@@ -128,9 +130,10 @@ ImageOf(M, pairs) == ImageBy(M, LAMBDA s : RenSym(pairs, s))
 \* parameters carrying the same assumptions, i.e. when it couples parameters and does
 \* nothing else
 Admissible(M, pairs) ==
-  \A s, t \in AllSyms(M) :
-     (s.name # t.name /\ NewName(pairs, s.name) = NewName(pairs, t.name))
-       => (s \in Params(M) /\ t \in Params(M) /\ s.tag = t.tag)
+  LET par == Params(M)
+      nn == [n \in Names(AllSyms(M)) |-> NewName(pairs, n)]
+  IN \A s, t \in AllSyms(M) :
+       (s.name # t.name /\ nn[s.name] = nn[t.name]) => (s \in par /\ t \in par /\ s.tag = t.tag)
 
 \* ---- what rename_symbols does ---------------------------------------------
 Collected(M, dev) ==
@@ -143,7 +146,6 @@ SymMap(M, pairs, dev) ==
   [s \in Collected(M, dev) |-> IF s.name \in Dom(pairs) THEN NewSym(pairs, s, dev) ELSE s]
 \* xreplace is simultaneous: every symbol is looked up once in the dictionary
 XRep(sm, S) == {IF s \in DOMAIN sm THEN sm[s] ELSE s : s \in S}
-Get(sm, s) == IF s \in DOMAIN sm THEN sm[s] ELSE s
 \* deviation: one substitution after the other, in dictionary order
 RECURSIVE SeqRep(_, _, _, _, _)
 SeqRep(M, pairs, dev, i, S) ==
@@ -152,30 +154,30 @@ SeqRep(M, pairs, dev, i, S) ==
               {IF s.name = pairs[i][1] /\ s \in Collected(M, dev)
                THEN Sym(pairs[i][2], IF "DropAssumptions" \in dev THEN "none" ELSE s.tag)
                ELSE s : s \in S})
-Rep(M, pairs, dev, S) ==
-  IF "SequentialSubs" \in dev THEN SeqRep(M, pairs, dev, 1, S) ELSE XRep(SymMap(M, pairs, dev), S)
-Rep1(M, pairs, dev, s) == CHOOSE x \in Rep(M, pairs, dev, {s}) : TRUE
 Warned(M, pairs, dev) == {n \in Dom(pairs) : n \notin Names(Collected(M, dev))}
 
 RenameImpl(M, pairs, dev) ==
   IF pairs = <<>> THEN M                                              \* "return self"
   ELSE
-  LET nk == [i \in DOMAIN M.pkeys |-> Rep1(M, pairs, dev, M.pkeys[i])]
-      newI == Rep(M, pairs, dev, M.intensity)
+  LET sm == SymMap(M, pairs, dev)                                     \* built once, used for every attribute
+      Rep(S) == IF "SequentialSubs" \in dev THEN SeqRep(M, pairs, dev, 1, S) ELSE XRep(sm, S)
+      Rep1(x) == CHOOSE y \in Rep({x}) : TRUE
+      nk == [i \in DOMAIN M.pkeys |-> Rep1(M.pkeys[i])]
+      newI == Rep(M.intensity)
       newA == IF "AmplitudesNotRenamed" \in dev THEN M.amps
-              ELSE [k \in DOMAIN M.amps |-> Rep(M, pairs, dev, M.amps[k])]
-      KK(k) == IF "KinKeysNotRenamed" \in dev THEN k ELSE Rep1(M, pairs, dev, k)
+              ELSE [k \in DOMAIN M.amps |-> Rep(M.amps[k])]
+      KK == [k \in KinKeys(M) |-> IF "KinKeysNotRenamed" \in dev THEN k ELSE Rep1(k)]
   IN
   [ intensity |-> newI,
     amps  |-> newA,
     comps |-> IF "ComponentsNotRenamed" \in dev THEN M.comps
-              ELSE [k \in DOMAIN M.comps |-> Rep(M, pairs, dev, M.comps[k])],
+              ELSE [k \in DOMAIN M.comps |-> Rep(M.comps[k])],
     expr  |-> newI \cup UNION {newA[k] : k \in DOMAIN newA},          \* .expression is derived
     pkeys |-> DictKeys(nk),
     pvals |-> DictVals(nk, M.pvals),
-    kin   |-> [k2 \in {KK(k) : k \in KinKeys(M)} |->
-                 Rep(M, pairs, dev, M.kin[CHOOSE k \in KinKeys(M) : KK(k) = k2])],
-    p4    |-> Rep(M, pairs, dev, M.p4) ]
+    kin   |-> [k2 \in {KK[k] : k \in KinKeys(M)} |->
+                 Rep(M.kin[CHOOSE k \in KinKeys(M) : KK[k] = k2])],
+    p4    |-> Rep(M.p4) ]
 
 \* ---- ParameterValues --------------------------------------------------------
 Kinds == {"symbol", "name", "index"}
@@ -326,54 +328,64 @@ ComposeInv ==
     IN (KinInjective(cur, p1) /\ KinInjective(mid, p2))
        => ImageOf(mid, p2) = ImageBy(cur, LAMBDA s : RenSym(p2, RenSym(p1, s)))
 
+\* ---- laws as predicates over (receiver, result, map): shared with Trace_ModelOps ------
+\* every attribute of the renamed model is the image of the receiver's under the symbol map
+\* built from names
+LawImage(pre, post, pairs) == post = ImageOf(pre, pairs)
+\* assumptions kept: every symbol afterwards is the renaming of a symbol with the same tag
+LawAssumptions(pre, post, pairs) ==
+  LET img == {<<NewName(pairs, t.name), t.tag>> : t \in AllSyms(pre)}
+  IN \A s \in AllSyms(post) : <<s.name, s.tag>> \in img
+\* unrelated symbols untouched: symbols, the amplitude they occur in, parameter and value
+LawUnrelated(pre, post, pairs) ==
+  LET after == AllSyms(post)
+      dom == Dom(pairs)
+  IN /\ \A s \in AllSyms(pre) : s.name \notin dom => s \in after
+     /\ DOMAIN post.amps = DOMAIN pre.amps /\ DOMAIN post.comps = DOMAIN pre.comps
+     /\ \A a \in DOMAIN pre.amps : \A s \in pre.amps[a] : s.name \notin dom => s \in post.amps[a]
+     /\ \A i \in DOMAIN pre.pkeys :
+          (\A j \in DOMAIN pre.pkeys : RenSym(pairs, pre.pkeys[j]) = RenSym(pairs, pre.pkeys[i]) => j = i)
+            => \E k \in DOMAIN post.pkeys : post.pkeys[k] = RenSym(pairs, pre.pkeys[i]) /\ post.pvals[k] = pre.pvals[i]
+\* only coupling: symbols are identified iff they get the same name and carry the same
+\* assumptions, nothing else is; a coupled parameter takes the value of one of its originals
+LawCoupling(pre, post, pairs) ==
+  /\ Len(post.pkeys) = Cardinality(Img(pairs, Params(pre)))
+  /\ Cardinality(AllSyms(post)) = Cardinality(Img(pairs, AllSyms(pre)))
+  /\ Len(post.pkeys) = Len(post.pvals)
+  /\ \A i \in DOMAIN post.pkeys :
+       post.pvals[i] \in {pre.pvals[j] : j \in {j \in DOMAIN pre.pkeys : RenSym(pairs, pre.pkeys[j]) = post.pkeys[i]}}
+\* admissibility is exactly what keeps the model closed (C01) and its names unambiguous
+LawAdmissible(pre, post, pairs) ==
+  (Closure(pre) /\ WellNamed(pre)) => ((Closure(post) /\ WellNamed(post)) <=> Admissible(pre, pairs))
+\* a warning for exactly the names no symbol of the model carries
+LawWarned(pre, pairs, warned) == warned = {n \in Dom(pairs) : n \notin Names(AllSyms(pre))}
+\* ParameterValues: a read returns the value at the position the key denotes, KeyError if it
+\* denotes none; a write changes that one value, never keys or order
+LawGet(pre, idx, res) == res = IF idx = 0 THEN KeyError ELSE Value(pre.pvals[idx])
+LawSet(pre, post, idx, res) ==
+  /\ post.pkeys = pre.pkeys
+  /\ [post EXCEPT !.pvals = pre.pvals] = pre
+  /\ IF idx = 0 THEN res = KeyError /\ post = pre
+     ELSE /\ res.ok /\ post.pvals[idx] = res.val
+          /\ \A i \in DOMAIN pre.pvals : i # idx => post.pvals[i] = pre.pvals[i]
+
 \* ---- laws: action properties, evaluated on every step <<state, state'>> ------------
 IsRename == last'.op = "Rename"
 Pairs == MapTable[last'.mid]
-\* every attribute of the renamed model is the image of the receiver's under the symbol map
-\* built from names
-RenameIsImageA == IsRename => cur' = ImageOf(cur, Pairs)
-\* assumptions kept: every symbol afterwards is the renaming of a symbol with the same tag
-AssumptionsKeptA ==
-  IsRename => \A s \in AllSyms(cur') : \E t \in AllSyms(cur) : t.tag = s.tag /\ NewName(Pairs, t.name) = s.name
-\* unrelated symbols untouched
-UnrelatedUntouchedA ==
-  IsRename => /\ \A s \in AllSyms(cur) : s.name \notin Dom(Pairs) => s \in AllSyms(cur')
-              /\ \A a \in DOMAIN cur.amps : \A s \in cur.amps[a] : s.name \notin Dom(Pairs) => s \in cur'.amps[a]
-              /\ \A i \in DOMAIN cur.pkeys :
-                   (\A j \in DOMAIN cur.pkeys : RenSym(Pairs, cur.pkeys[j]) = RenSym(Pairs, cur.pkeys[i]) => j = i)
-                     => \E k \in DOMAIN cur'.pkeys : cur'.pkeys[k] = RenSym(Pairs, cur.pkeys[i]) /\ cur'.pvals[k] = cur.pvals[i]
-\* only coupling: parameters are identified iff they get the same name and carry the same
-\* assumptions, nothing else is; a coupled parameter takes the value of one of its originals
-OnlyCouplingA ==
-  IsRename =>
-    /\ Len(cur'.pkeys) = Cardinality(Img(Pairs, Params(cur)))
-    /\ Cardinality(AllSyms(cur')) = Cardinality(Img(Pairs, AllSyms(cur)))
-    /\ \A i \in DOMAIN cur'.pkeys :
-         cur'.pvals[i] \in {cur.pvals[j] : j \in {j \in DOMAIN cur.pkeys : RenSym(Pairs, cur.pkeys[j]) = cur'.pkeys[i]}}
-\* admissibility is exactly what keeps the model closed and its names unambiguous
-AdmissibleExactA ==
-  (IsRename /\ Closure(cur) /\ WellNamed(cur))
-     => ((Closure(cur') /\ WellNamed(cur')) <=> Admissible(cur, Pairs))
-\* a warning for exactly the names no symbol of the model carries
-WarnsExactlyA == IsRename => last'.warned = {n \in Dom(Pairs) : n \notin Names(AllSyms(cur))}
+RenameIsImageA == IsRename => LawImage(cur, cur', Pairs)
+AssumptionsKeptA == IsRename => LawAssumptions(cur, cur', Pairs)
+UnrelatedUntouchedA == IsRename => LawUnrelated(cur, cur', Pairs)
+OnlyCouplingA == IsRename => LawCoupling(cur, cur', Pairs)
+AdmissibleExactA == IsRename => LawAdmissible(cur, cur', Pairs)
+WarnsExactlyA == IsRename => LawWarned(cur, Pairs, last'.warned)
 \* the receiver of a rename is not modified; the original changes only through a ParamSet on
 \* an object that IS the original; reads and pickling change nothing
 OriginalUnchangedA ==
   /\ IsRename => last'.recvSame
   /\ (orig' # orig) => (aliased /\ last'.op = "ParamSet")
   /\ last'.op \in {"Pickle", "ParamGet"} => (cur' = cur /\ orig' = orig)
-\* ParameterValues: a read returns the value at the position the key denotes, KeyError if it
-\* denotes none; a write changes that one value, never keys or order
-ParamGetA ==
-  last'.op = "ParamGet" =>
-     result' = IF last'.idx = 0 THEN KeyError ELSE Value(cur.pvals[last'.idx])
-ParamSetA ==
-  last'.op = "ParamSet" =>
-     /\ cur'.pkeys = cur.pkeys
-     /\ [cur' EXCEPT !.pvals = cur.pvals] = cur
-     /\ IF last'.idx = 0 THEN result' = KeyError /\ cur' = cur
-        ELSE /\ result'.ok /\ cur'.pvals[last'.idx] = result'.val
-             /\ \A i \in DOMAIN cur.pvals : i # last'.idx => cur'.pvals[i] = cur.pvals[i]
+ParamGetA == last'.op = "ParamGet" => LawGet(cur, last'.idx, result')
+ParamSetA == last'.op = "ParamSet" => LawSet(cur, cur', last'.idx, result')
 
 RenameIsImage == [][RenameIsImageA]_vars
 AssumptionsKept == [][AssumptionsKeptA]_vars
